@@ -522,9 +522,13 @@ type vlkBeh struct {
 	Steps []vlkStep                    `json:"steps"`
 }
 
-func vlkMatch(pr vlkProj, st vlkSt) []string {
+// vlkMatch compares the projected real state with the specification's.  escaped = requests that woke up from a
+// blocked RLock right after a reload returned: they run on the freshly installed (not yet re-wrapped) selector and so
+// pass no gate any more; their position and the reader count are then not comparable step by step (their answers
+// still are, at the end).
+func vlkMatch(pr vlkProj, st vlkSt, escaped map[string]bool) []string {
 	var d []string
-	if pr.Readers != st.Readers {
+	if pr.Readers != st.Readers && len(escaped) == 0 {
 		d = append(d, "readers")
 	}
 	if pr.W != st.W {
@@ -538,7 +542,7 @@ func vlkMatch(pr vlkProj, st vlkSt) []string {
 		if a == "between" {
 			a = "running"
 		}
-		if got != a {
+		if got != a && !escaped[r] {
 			d = append(d, "at."+r)
 		}
 	}
@@ -604,6 +608,7 @@ func vlkRunBehaviour(t testing.TB, files *vlkFiles, b *vlkBeh, salt int, boundMu
 	w := vlkNewWorld(t, files, true, reqNames, relNames, targets, salt)
 	bound := w.bound * time.Duration(boundMul)
 	out := vlkOutcome{Kind: "ok", Step: -1}
+	escaped := map[string]bool{}
 	fail := func(kind string, i int, want any, got vlkProj, diff []string) vlkOutcome {
 		out.Kind, out.Step, out.Want, out.Got, out.Diff = kind, i, want, got, diff
 		out.ReloadUnderReaders = w.reloadUnderReaders
@@ -653,10 +658,24 @@ func vlkRunBehaviour(t testing.TB, files *vlkFiles, b *vlkBeh, salt int, boundMu
 		if !st.Q {
 			continue
 		}
-		pr, ok := w.await(bound, func(pr vlkProj) bool { return len(vlkMatch(pr, st.St)) == 0 })
+		pr, ok := w.await(bound, func(pr vlkProj) bool { return len(vlkMatch(pr, st.St, escaped)) == 0 })
 		if !ok {
+			// a request that was blocked in RLock when a reload returned escapes the gates (see vlkMatch)
+			anyReload := false
+			for _, dn := range pr.Mdone {
+				anyReload = anyReload || dn
+			}
+			for r, a := range st.St.At {
+				if anyReload && pr.At[r] == "done" && (strings.HasPrefix(a, "pre_") || strings.HasPrefix(a, "post_")) && !escaped[r] {
+					escaped[r] = true
+					out.Ungated++
+				}
+			}
+			if len(escaped) > 0 && len(vlkMatch(pr, st.St, escaped)) == 0 {
+				continue
+			}
 			// did something simply not arrive (stall) or did the code do something else (diverge)?
-			diff := vlkMatch(pr, st.St)
+			diff := vlkMatch(pr, st.St, escaped)
 			kind := "diverge"
 			for r, a := range st.St.At {
 				if pr.At[r] == "running" && a != "between" {
